@@ -90,8 +90,12 @@ def aRet (v : Option Var) (a : AState) : Bool :=
 /-- `a ⊑ b` pointwise (same size) -/
 def subVals (x y : AVal) : Bool := x.all (fun c => y.contains c)
 
-def subState (a b : AState) : Bool :=
-  decide (a.size = b.size) && (List.zipWith subVals a.toList b.toList).all id
+def subList : List AVal → List AVal → Bool
+  | [], [] => true
+  | x :: xs, y :: ys => subVals x y && subList xs ys
+  | _, _ => false
+
+def subState (a b : AState) : Bool := subList a.toList b.toList
 
 /-- after the edge's `assume`s some touched variable has no possible value left: the edge cannot be taken -/
 def edgeDead (e : Edge) (a : AState) : Bool := e.ops.any (fun op => (a.get op.var).isEmpty)
@@ -122,21 +126,34 @@ def checkBlock (nblocks : Nat) (ann : Ann) (entry : Option AState) (b : Block) :
     | none => false
     | some a' => checkTerm nblocks ann a' b.term
 
-def initState (f : FuncIR) : AState := (Array.range f.nvars).map (initVals f)
+def initState (f : FuncIR) : AState := ((List.range f.nvars).map (initVals f)).toArray
 
 def argsInRange (f : FuncIR) : Bool := f.args.all (fun p => decide (p.1 < f.nvars))
 
 def checkEntry (f : FuncIR) (ann : Ann) : Bool :=
   argsInRange f && flowsTo (initState f) (ann.getD 0 none)
 
+def checkBlocks (nblocks : Nat) (ann : Ann) : List (Option AState) → List Block → Bool
+  | [], [] => true
+  | e :: es, b :: bs => checkBlock nblocks ann e b && checkBlocks nblocks ann es bs
+  | _, _ => false
+
 /-- the annotation is consistent: a verified certificate that `f` is safe -/
 def checkAnn (f : FuncIR) (ann : Ann) : Bool :=
-  decide (0 < f.blocks.size) && decide (ann.size = f.blocks.size) && checkEntry f ann &&
-  (List.zipWith (checkBlock f.blocks.size ann) ann.toList f.blocks.toList).all id
+  checkEntry f ann && checkBlocks f.blocks.size ann ann.toList f.blocks.toList
 
 /-! ## finding the annotation (untrusted) -/
 
-def joinState (a b : AState) : AState := (List.zipWith unionVals a.toList b.toList).toArray
+def joinList : List AVal → List AVal → List AVal
+  | x :: xs, y :: ys => unionVals x y :: joinList xs ys
+  | _, _ => []
+
+def joinState (a b : AState) : AState := (joinList a.toList b.toList).toArray
+
+/-- the worklist is kept sorted (smallest label first: close to reverse postorder for mypyc's block layout) -/
+def insertLbl (l : Lbl) : List Lbl → List Lbl
+  | [] => [l]
+  | x :: xs => if l < x then l :: x :: xs else if l = x then x :: xs else x :: insertLbl l xs
 
 /-- propagate `a` (state after the block's ops) along edge `e` -/
 def propagate (a : AState) (acc : Ann × List Lbl) (e : Edge) : Ann × List Lbl :=
@@ -147,10 +164,10 @@ def propagate (a : AState) (acc : Ann × List Lbl) (e : Edge) : Ann × List Lbl 
     else
       let (ann, work) := acc
       match ann.getD e.target none with
-      | none => (ann.setIfInBounds e.target (some a'), e.target :: work)
+      | none => (ann.setIfInBounds e.target (some a'), insertLbl e.target work)
       | some cur =>
         if subState a' cur then acc
-        else (ann.setIfInBounds e.target (some (joinState a' cur)), if work.contains e.target then work else e.target :: work)
+        else (ann.setIfInBounds e.target (some (joinState a' cur)), insertLbl e.target work)
 
 def inferLoop (f : FuncIR) : Nat → Ann → List Lbl → Ann
   | 0, ann, _ => ann
